@@ -63,6 +63,7 @@ func main() {
 			return
 		}
 		enc.Encode(handle(&req))
+		out.Flush()
 	}
 }
 
